@@ -1153,3 +1153,69 @@ CONTRACTS[ST + 'StabilizerState.sample'] = dict(
              'forall(j, 0, L, result.ps[j] == OrdP(C[j], %s, %s, cols(self.gs) // 2 - self.r, cols(self.gs) // 2))' % (_saG, _saP)],
     modifies=[], returns=dict(PLIST, exact=False), ghost=['C'], canonical_slices=True,
 )
+
+# ------------------------------------------------------------------ C05: ANY well-formed gate keeps a valid state valid (one contract for all kinds)
+# generator / forward_map / backward_map are each None or present (('opt', T): the function is verified once per combination; the
+# requires exclude only "backward map without forward map", where forward() would cache an inverse into the gate).  What a
+# well-formed gate is: a Hermitian generator on its n qubits, or a valid forward table on its n qubits, or nothing (resampled).
+GATE_ANY = {'cls': 'CliffordGate', 'fields': {'n': 'int', 'generator': ('opt', dict(PAULI, exact=False)), 'forward_map': ('opt', CMAP),
+                                             'backward_map': ('opt', CMAP), 'qubits': 'int1'}}
+_fm = 'self.forward_map'
+_wf_gate = ['self.n >= 1', 'len(self.qubits) >= 1',
+            'implies(self.generator is not None, len(self.generator.g) == 2 * self.n and bits1(self.generator.g) and '
+            '(self.generator.p == 0 or self.generator.p == 2))',
+            'implies(self.generator is None and %s is not None, rows(%s.gs) == 2 * self.n and cols(%s.gs) == 2 * self.n and len(%s.ps) == 2 * self.n '
+            'and bits2(%s.gs) and gram_map(%s.gs, self.n) and forall(k, 0, 2 * self.n, %s.ps[k] == 0 or %s.ps[k] == 2))' % ((_fm,) * 8),
+            'implies(self.generator is None and %s is None, self.backward_map is None)' % _fm]
+CONTRACTS[CI + 'CliffordGate.forward#any_state'] = dict(
+    params=[('self', GATE_ANY), ('obj', STATE)],
+    requires=_wf_gate + ['cols(obj.gs) % 2 == 0', _inv_obj,
+                         'implies(self.n != cols(obj.gs) // 2, 2 * self.n == %s and forall(k, 0, len(self.qubits), 0 <= self.qubits[k] < cols(obj.gs) // 2))' % _cntL],
+    ensures=_inv_obj_post, modifies=['obj.gs', 'obj.ps'], returns='=obj',
+)
+_bm = 'self.backward_map'
+_wf_gate_b = ['self.n >= 1', 'len(self.qubits) >= 1',
+              'implies(self.generator is not None, len(self.generator.g) == 2 * self.n and bits1(self.generator.g) and '
+              '(self.generator.p == 0 or self.generator.p == 2))',
+              'implies(self.generator is None and %s is not None, rows(%s.gs) == 2 * self.n and cols(%s.gs) == 2 * self.n and len(%s.ps) == 2 * self.n '
+              'and bits2(%s.gs) and gram_map(%s.gs, self.n) and forall(k, 0, 2 * self.n, %s.ps[k] == 0 or %s.ps[k] == 2))' % ((_bm,) * 8),
+              'implies(self.generator is None and %s is None, self.forward_map is None)' % _bm]
+CONTRACTS[CI + 'CliffordGate.backward#any_state'] = dict(
+    params=[('self', GATE_ANY), ('obj', STATE)],
+    # backward goes through mask(qubits) for maps on the full register too ("if False and ..." in the source)
+    requires=_wf_gate_b + ['cols(obj.gs) % 2 == 0', _inv_obj,
+                           'implies(self.n != cols(obj.gs) // 2 or self.generator is None, 2 * self.n == %s and forall(k, 0, len(self.qubits), 0 <= self.qubits[k] < cols(obj.gs) // 2))' % _cntL],
+    ensures=_inv_obj_post, modifies=['obj.gs', 'obj.ps'], returns='=obj',
+)
+
+# ------------------------------------------------------------------ C05: a LAYER of any number of well-formed gates (or its compiled map) keeps a valid state valid
+GATE_ELEM = {'cls': 'CliffordGate', 'fields': GATE_ANY['fields']}
+LAYER_ANY = {'cls': 'CliffordLayer', 'fields': {'gates': {'seq': GATE_ELEM}, 'forward_map': ('opt', CMAP), 'backward_map': ('opt', CMAP)}}
+
+
+def _per_gate(clauses):
+    return ['forall(gi, 0, len(self.gates), %s)' % c.replace('self.', 'self.gates[gi].') for c in clauses]
+
+
+_loc_f = 'implies(self.n != cols(obj.gs) // 2, 2 * self.n == %s and forall(k, 0, len(self.qubits), 0 <= self.qubits[k] < cols(obj.gs) // 2))' % _cntL
+_loc_b = ('implies(self.n != cols(obj.gs) // 2 or self.generator is None, 2 * self.n == %s and '
+          'forall(k, 0, len(self.qubits), 0 <= self.qubits[k] < cols(obj.gs) // 2))' % _cntL)
+
+
+def _layer_map_ok(m):
+    return ('implies(%s is not None, rows(%s.gs) == cols(obj.gs) and cols(%s.gs) == cols(obj.gs) and len(%s.ps) == cols(obj.gs) and bits2(%s.gs) '
+            'and gram_map(%s.gs, cols(obj.gs) // 2) and forall(k, 0, cols(obj.gs), %s.ps[k] == 0 or %s.ps[k] == 2))' % ((m,) * 8))
+
+
+CONTRACTS[CI + 'CliffordLayer.forward#state'] = dict(
+    params=[('self', LAYER_ANY), ('obj', STATE)],
+    requires=['cols(obj.gs) % 2 == 0', _inv_obj, _layer_map_ok('self.forward_map')] + _per_gate(_wf_gate + [_loc_f]),
+    ensures=_inv_obj_post, modifies=['obj.gs', 'obj.ps'], returns='=obj', calls={'gate.forward': 'CliffordGate.forward#any_state'},
+    loops={0: dict(var='gi', invariant=[_inv_obj, 'cols(obj.gs) % 2 == 0', 'obj.r == old(obj.r)', 'rows(obj.gs) == cols(obj.gs)', 'len(obj.ps) == rows(obj.gs)'])},
+)
+CONTRACTS[CI + 'CliffordLayer.backward#state'] = dict(
+    params=[('self', LAYER_ANY), ('obj', STATE)],
+    requires=['cols(obj.gs) % 2 == 0', _inv_obj, _layer_map_ok('self.backward_map')] + _per_gate(_wf_gate_b + [_loc_b]),
+    ensures=_inv_obj_post, modifies=['obj.gs', 'obj.ps'], returns='=obj', calls={'gate.backward': 'CliffordGate.backward#any_state'},
+    loops={0: dict(var='gi', invariant=[_inv_obj, 'cols(obj.gs) % 2 == 0', 'obj.r == old(obj.r)', 'rows(obj.gs) == cols(obj.gs)', 'len(obj.ps) == rows(obj.gs)'])},
+)
